@@ -1070,6 +1070,15 @@ impl St {
             }
 
             // ---------------- environment ----------------
+            "fsize" => {
+                need(a, 1)?;
+                let lim = if a[0] == "-" {
+                    None
+                } else {
+                    Some(a[0].parse::<u64>().map_err(|_| Bad::Arg)?)
+                };
+                Ok(envops::fsize(lim))
+            }
             "put" => {
                 need(a, 2)?;
                 let p = parse_path(a[0])?;
